@@ -6,6 +6,7 @@
 import QV.Proofs.CompressC
 import QV.Proofs.NameWireExec
 import QV.Proofs.Wire
+import QV.Proofs.WriterNames
 
 namespace QV.Writer
 open QV QV.Wire QV.Spec
@@ -120,5 +121,25 @@ theorem nameAtC_specDecodeName {G : Nat → Prop} {oct msg : Bytes} {cur p : Nat
     ∃ k, specDecodeName msg p = some (wireOf ls, ls.length + 1, k) := by
   obtain ⟨k, hd⟩ := nameAtC_decodes h hm
   exact ⟨k, (specDecodeName_iff msg p _ _ _).mpr ⟨hd, hlen⟩⟩
+
+
+theorem wireOf_length (ls : List Label) : (wireOf ls).length = encLen ls + 1 := by
+  simp [wireOf, encLen]
+
+theorem extract_prefix_get (oct : Bytes) (cur : Nat) (hc : cur ≤ oct.size) (i : Nat) (hi : i < cur) :
+    (oct.extract 0 cur)[i]? = oct[i]? := by
+  simp only [Array.getElem?_extract]
+  rw [if_pos (by omega)]
+  simp
+
+/-- **at every recorded label start of a valid writer state the independent RFC 1035 decoder
+    succeeds** on the message written so far, and reads a name of at most 255 octets -/
+theorem cstored_specDecodeName {s : State} {g : Nat} (h : CStored s g) (hc : s.cursor ≤ s.octets.size) :
+    ∃ ls k, NameAtC (GL s) s.octets s.cursor g g ls ∧
+      specDecodeName (s.octets.extract 0 s.cursor) g = some (wireOf ls, ls.length + 1, k) := by
+  obtain ⟨ls, hn, hb⟩ := h
+  obtain ⟨k, hk⟩ := nameAtC_specDecodeName (msg := s.octets.extract 0 s.cursor) hn
+    (extract_prefix_get s.octets s.cursor hc) (by rw [wireOf_length]; exact hb)
+  exact ⟨ls, k, hn, hk⟩
 
 end QV.Writer
